@@ -458,7 +458,7 @@ pub fn run(tier: Tier) -> i32 {
         let name = "wrap/public/dict=4096";
         if ctx.may_start(name) {
             let t0 = Instant::now();
-            let jmax = tier.pick(12usize, 30usize);
+            let jmax = tier.pick(20usize, 48usize);
             let mut items = Vec::new();
             for j in 0..=jmax {
                 for l in 2..=(jmax + 2) {
@@ -640,11 +640,77 @@ pub fn run(tier: Tier) -> i32 {
                     progs.push(p);
                 }
             }
-            let np = progs.len() as u64;
+            // context-polarised walks: every binary decision of the symbol grammar (literal?, rep?, rep0?, short rep?, rep1?)
+            // is taken 3 times out of 4 as a hash of its TRUE context index (automaton state, position mod 2^pb) says, so two
+            // contexts that a decoder wrongly shares are trained in opposite directions under about half of the 4 hashes
+            let walk = |pb: u32, k: u32| -> Vec<Sym> {
+                let mut x: u32 = 0x9E37_79B9u32.wrapping_mul(k + 1) ^ (pb * 77 + seed as u32);
+                let mut rnd = move || {
+                    x = x.wrapping_mul(1664525).wrapping_add(1013904223);
+                    x >> 8
+                };
+                let pol = |var: u32, idx: u32| -> bool { (((var * 131 + idx + 1).wrapping_mul(2654435761u32.wrapping_add(k.wrapping_mul(2246822519)))) >> 15) & 1 == 1 };
+                let mut prog: Vec<Sym> = (0..6u32).map(|i| Sym::L((i * 29 + 3) as u8)).collect();
+                prog.push(Sym::M(2, 2));
+                prog.push(Sym::M(5, 3));
+                prog.push(Sym::M(1, 2));
+                prog.push(Sym::M(7, 2));
+                let mut pos: u32 = 6 + 2 + 3 + 2 + 2;
+                let mut st: u32 = 10;
+                let mask = (1u32 << pb) - 1;
+                for _ in 0..420 {
+                    let ps = pos & mask;
+                    let follow = |v: bool, r: u32| if r % 4 == 0 { r & 16 != 0 } else { v };
+                    let is_lit = !follow(pol(0, (st << 4) + ps), rnd());
+                    if is_lit {
+                        prog.push(Sym::L(rnd() as u8));
+                        pos += 1;
+                        st = if st < 4 { 0 } else if st < 10 { st - 3 } else { st - 6 };
+                        continue;
+                    }
+                    let is_rep = follow(pol(1, st), rnd());
+                    if !is_rep {
+                        let d = 1 + rnd() % 12.min(pos);
+                        let l = 2 + rnd() % 4;
+                        prog.push(Sym::M(d, l));
+                        pos += l;
+                        st = if st < 7 { 7 } else { 10 };
+                        continue;
+                    }
+                    let g0 = follow(pol(2, st), rnd());
+                    if !g0 {
+                        if follow(pol(3, (st << 4) + ps), rnd()) {
+                            let l = 2 + rnd() % 5;
+                            prog.push(Sym::R(0, l));
+                            pos += l;
+                            st = if st < 7 { 8 } else { 11 };
+                        } else {
+                            prog.push(Sym::S);
+                            pos += 1;
+                            st = if st < 7 { 9 } else { 11 };
+                        }
+                        continue;
+                    }
+                    let which = if !follow(pol(4, st), rnd()) { 1 } else if !follow(pol(5, st), rnd()) { 2 } else { 3 };
+                    let l = 2 + rnd() % 4;
+                    prog.push(Sym::R(which, l));
+                    pos += l;
+                    st = if st < 7 { 8 } else { 11 };
+                }
+                prog
+            };
+            let nfixed = progs.len() as u64;
+            let np = nfixed + 4;
             par_for(225 * np, |i| {
                 let props = (i / np) as u32;
                 let (lc, lp, pb) = (props % 9, (props / 9) % 5, props / 45);
-                let prog = &progs[(i % np) as usize];
+                let walked;
+                let prog = if i % np < nfixed {
+                    &progs[(i % np) as usize]
+                } else {
+                    walked = walk(pb, (i % np - nfixed) as u32);
+                    &walked
+                };
                 let mut first = true;
                 for var in [Variant::Known { dict: 4096 }, Variant::Marker { dict: 1 << 20 }, Variant::RawKnown { dict: 64 }] {
                     if let Some((b, e)) = build(lc, lp, pb, prog, var, u64::MAX) {
@@ -660,7 +726,7 @@ pub fn run(tier: Tier) -> i32 {
                     }
                 }
             });
-            ctx.scope_done(name, 225 * np, t0, &format!("{} programs x 225 settings x 3 presentations", np));
+            ctx.scope_done(name, 225 * np, t0, &format!("{} programs (4 of them context-polarised walks of 420 symbols) x 225 settings x 3 presentations", np));
         }
     }
 
